@@ -18,7 +18,12 @@ Open Scope Z_scope.
 (* ------------------------------------------------------------------ *)
 Inductive kcol := K0 | K1 | K2.
 Inductive col := CId | CK (k : kcol).
-Record skey := { k_col : col; k_desc : bool }.       (* 'name' / '-name' *)
+(* how a key is written: a name ('k0' / '-k0': k_desc is the '-' prefix) or a
+   sqlbuilder expression (Cls.q.k0 / DESC(Cls.q.k0): k_desc is the DESC wrapper).
+   doSort turns the expression forms into the name forms (`.original`), the
+   query flavours hand them to ORDER BY as they are. *)
+Inductive kform := FName | FExpr.
+Record skey := { k_col : col; k_desc : bool; k_form : kform }.
 (* the join's orderBy: None, a single name, or a list/tuple of names *)
 Inductive order := ONone | OOne (k : skey) | OList (ks : list skey).
 
@@ -27,6 +32,15 @@ Definition order_keys (o : order) : list skey :=
 (* orderBy=[] makes doSort recurse for ever and renders an empty ORDER BY *)
 Definition order_ok (o : order) : bool :=
   match o with OList [] => false | _ => true end.
+(* a join declared without orderBy takes the other class's sqlmeta.defaultOrder
+   (SOJoin.orderBy) *)
+Inductive jorder := JGiven (o : order) | JDefault.
+Definition effective (d : order) (jo : jorder) : order :=
+  match jo with JGiven o => o | JDefault => d end.
+Definition is_expr (k : skey) : bool := match k_form k with FExpr => true | FName => false end.
+Definition has_expr (o : order) : bool := existsb is_expr (order_keys o).
+(* two orderings that name the same columns and directions, however written *)
+Definition same_key (k k' : skey) : Prop := k_col k = k_col k' /\ k_desc k = k_desc k'.
 
 (* None (SQL NULL) sorts below every integer: joins.Min on the Python side,
    NULLS FIRST (ascending) in sqlite *)
@@ -104,6 +118,11 @@ Fixpoint lex_eq (ks : list skey) (x y : A) : bool :=
   end.
 Fixpoint ssorted_b (le : A -> A -> bool) (l : list A) : bool :=
   match l with [] => true | x :: r => forallb (le x) r && ssorted_b le r end.
+
+(* stability: l' keeps, within every class of elements that tie on all keys,
+   the order those elements had in l *)
+Definition stable_wrt (ks : list skey) (l l' : list A) : Prop :=
+  forall x, filter (lex_eq ks x) l' = filter (lex_eq ks x) l.
 End Sorting.
 
 (* ------------------------------------------------------------------ *)
@@ -197,7 +216,13 @@ Inductive op :=
 | SetFk (b : Z) (v : fkv)
 | Add (j : rjoin) (inst other : Z)           (* inst.add<X>(other) through join j of inst's class *)
 | Remove (j : rjoin) (inst other : Z)
-| Destroy (c : cls) (i : Z).
+| Destroy (c : cls) (i : Z)
+(* the ManyToMany / OneToMany descriptors (joins.py SOManyToMany, SOOneToMany and
+   their select wrappers) *)
+| MAdd (j : rjoin) (inst other : Z)                     (* inst.<m2m>.add(other) *)
+| MRemove (j : rjoin) (inst other : Z)                  (* inst.<m2m>.remove(other) *)
+| MCreate (j : rjoin) (inst : Z) (k0 k1 k2 : option Z)  (* inst.<m2m>.create(k0=.., k1=.., k2=..) *)
+| OCreate (a : Z) (k0 k1 k2 : option Z).                (* a.<o2m>.create(k0=.., k1=.., k2=..) *)
 
 (* objects are addressed by id; the harness fetches them with cls.get(id),
    which raises SQLObjectNotFound for a row that does not exist; an explicit id
@@ -222,6 +247,10 @@ Definition op_status (s : state) (o : op) : status :=
   | Add j x y | Remove j x y =>
       if live (j_owner j) x s && live (j_other j) y s then SOk else SNotFound
   | Destroy c i => if live c i s then SOk else SNotFound
+  | MAdd j x y | MRemove j x y =>
+      if live (j_owner j) x s && live (j_other j) y s then SOk else SNotFound
+  | MCreate j x _ _ _ => if live (j_owner j) x s then SOk else SNotFound
+  | OCreate a _ _ _ => if live CA a s then SOk else SNotFound
   end.
 
 Fixpoint insert_row (r : row) (t : list row) : list row :=
@@ -261,6 +290,16 @@ Definition matches (j : rjoin) (cond : list (jrole * jarg)) (inst other : Z) (r 
 Definition related_remove (j : rjoin) (inst other : Z) (s : state) : state :=
   set_link (j_link j) (filter (fun r => negb (matches j gen_related_remove inst other r)) (link (j_link j) s)) s.
 
+(* _ManyToManySelectWrapper.add / remove: the same two statements, with the roles
+   as that class passes them *)
+Definition m2m_add (j : rjoin) (inst other : Z) (s : state) : state :=
+  match assigned j gen_m2m_add First inst other, assigned j gen_m2m_add Second inst other with
+  | Some x, Some y => set_link (j_link j) (link (j_link j) s ++ [(x, y)]) s
+  | _, _ => s
+  end.
+Definition m2m_remove (j : rjoin) (inst other : Z) (s : state) : state :=
+  set_link (j_link j) (filter (fun r => negb (matches j gen_m2m_remove inst other r)) (link (j_link j) s)) s.
+
 (* destroySelf: DELETE FROM t WHERE col=id for every related join of the
    object's own class (first loop) and for every related join of any class
    that names the object's class as its otherClass (second loop) *)
@@ -279,18 +318,27 @@ Definition destroy (c : cls) (i : Z) (s : state) : state :=
   let s' := destroy_links c i s in
   set_tab c (filter (fun r => negb (r_id r =? i)) (tab c s')) (seqno c s') s'.
 
+Definition create (c : cls) (ex : option Z) (k0 k1 k2 : option Z) (fk : fkv) (s : state) : state :=
+  let i := match ex with Some i => i | None => seqno c s + 1 end in
+  let r := {| r_id := i; r_k0 := k0; r_k1 := k1; r_k2 := k2;
+              r_fk := match c with CB => fkv_val fk | _ => None end |} in
+  set_tab c (insert_row r (tab c s)) (Z.max (seqno c s) i) s.
+
 Definition do_op (s : state) (o : op) : state :=
   match o with
-  | Create c ex k0 k1 k2 fk =>
-      let i := match ex with Some i => i | None => seqno c s + 1 end in
-      let r := {| r_id := i; r_k0 := k0; r_k1 := k1; r_k2 := k2;
-                  r_fk := match c with CB => fkv_val fk | _ => None end |} in
-      set_tab c (insert_row r (tab c s)) (Z.max (seqno c s) i) s
+  | Create c ex k0 k1 k2 fk => create c ex k0 k1 k2 fk s
   | SetKey c i k v => set_tab c (update_row i (set_key k v) (tab c s)) (seqno c s) s
   | SetFk b v => set_tab CB (update_row b (set_fk (fkv_val v)) (tB s)) (nB s) s
   | Add j x y => related_add j x y s
   | Remove j x y => related_remove j x y s
   | Destroy c i => destroy c i s
+  | MAdd j x y => m2m_add j x y s
+  | MRemove j x y => m2m_remove j x y s
+  (* obj = otherClass(kw...); self.add(obj) *)
+  | MCreate j x k0 k1 k2 =>
+      m2m_add j x (seqno (j_other j) s + 1) (create (j_other j) None k0 k1 k2 FkNone s)
+  (* kw[<attribute of the join column>] = self.forObject.id; otherClass(kw...)  (since /repo 80b2179) *)
+  | OCreate a k0 k1 k2 => create CB None k0 k1 k2 (FkId a) s
   end.
 Definition step (s : state) (o : op) : state :=
   match op_status s o with SOk => do_op s o | _ => s end.
@@ -340,6 +388,26 @@ Definition related_join (j : rjoin) (o : order) (s : state) (inst : Z) : jres (l
    unordered select (sqlite: the first row of the scan) *)
 Definition single_join (s : state) (a : Z) : option row := hd_error (filter (fk_is a) (tB s)).
 
+(* ... when class B has a sqlmeta.defaultOrder the select is ordered by it and
+   results[0] is a first row of that ordering (which one among tied rows is the
+   engine's choice) *)
+Definition single_first (d : order) (s : state) (a : Z) (r : option row) : Prop :=
+  match r with
+  | None => filter (fk_is a) (tB s) = []
+  | Some x => In x (filter (fk_is a) (tB s)) /\
+              forall y, In y (filter (fk_is a) (tB s)) -> lex_le rval (order_keys d) x y = true
+  end.
+Definition single_first_b (d : order) (s : state) (a : Z) (r : option Z) : bool :=
+  match order_keys d, r with
+  | [], _ => match single_join s a, r with
+             | None, None => true | Some x, Some i => r_id x =? i | _, _ => false end
+  | _, None => match filter (fk_is a) (tB s) with [] => true | _ => false end
+  | ks, Some i => match get_row (filter (fk_is a) (tB s)) i with
+                  | Some x => forallb (lex_le rval ks x) (filter (fk_is a) (tB s))
+                  | None => false
+                  end
+  end.
+
 (* The query-flavoured joins return a SelectResults; iterating it runs
    SELECT ... ORDER BY <orderBy>.  The model gives the candidate rows (in no
    particular order); the rows actually returned are some `q` with
@@ -352,12 +420,29 @@ Definition sql_multiple (o : order) (s : state) (a : Z) : jres (list row) :=
    included, since _mungeOrderBy maps it to the other class's qualified id
    column -- are columns of the other class. *)
 Definition sql_related_sel : jrole * jrole := gen_sqlrelated_select.
+(* ... unless the join is self-referential: then the other class is selected
+   under the alias _SO_SQLRelatedJoin_OtherTable, the name keys are looked up on
+   the alias (SelectResults._mungeOrderBy), but an expression key Cls.q.col is
+   rendered with the real table name, which the FROM clause does not have:
+   "no such column" *)
+Definition self_join (j : rjoin) : bool := cls_eqb (j_owner j) (j_other j).
+Definition sqlrel_order_ok (j : rjoin) (o : order) : bool := negb (self_join j && has_expr o).
 Definition sql_related (j : rjoin) (o : order) (s : state) (inst : Z) : jres (list row) :=
   if negb (order_ok o) then JDbError
+  else if negb (sqlrel_order_ok j o) then JDbError
   else if live (j_owner j) inst s then
     JOk (flat_map (fun i => match get_row (tab (j_other j) s) i with Some r => [r] | None => [] end)
                   (select_link j sql_related_sel inst s))
   else JOk [].
+
+(* SOManyToMany.__get__: otherClass.select((other.id == t.othercol) & (t.joincol == inst.id)),
+   one result row per link row whose partner exists; ordered by the other
+   class's defaultOrder (there is no orderBy argument); .count() is the number
+   of these rows.  SOOneToMany.__get__: otherClass.select(other.fkcol == inst.id). *)
+Definition m2m_cands (j : rjoin) (s : state) (inst : Z) : list row :=
+  flat_map (fun i => match get_row (tab (j_other j) s) i with Some r => [r] | None => [] end)
+           (select_link j gen_m2m_select inst s).
+Definition o2m_cands (s : state) (a : Z) : list row := filter (fk_is a) (tB s).
 
 (* what sqlite may return for ORDER BY keys over the candidates *)
 Definition sql_rows (keys : list skey) (cands q : list row) : Prop :=
@@ -380,4 +465,14 @@ Definition sql_rows_b (keys : list skey) (cands : list row) (q : list Z) : bool 
   match get_all cands q with
   | Some rows => ssorted_b (lex_le rval keys) rows
   | None => false
+  end.
+
+(* two orderBy values of the same shape whose keys name the same columns and
+   directions ('-k0' against DESC(Cls.q.k0), 'k1' against Cls.q.k1) *)
+Definition same_order (o o' : order) : Prop :=
+  match o, o' with
+  | ONone, ONone => True
+  | OOne k, OOne k' => same_key k k'
+  | OList ks, OList ks' => Forall2 same_key ks ks'
+  | _, _ => False
   end.
